@@ -3,7 +3,7 @@ import json, os, shutil, threading
 import vf, clientlib
 
 HOSTS = ["h1", "h2"]
-HTTP_VARIANTS = ["http:listener", "http:headerHost", "http:headerMode", "http:insecure", "http:timeout"]
+HTTP_VARIANTS = ["http:listener", "http:headerHost", "http:headerHostLegacy", "http:headerMode", "http:insecure", "http:timeout"]
 
 
 def to_scenario(hist, rng, name, probe=True, variants=None):
